@@ -115,11 +115,14 @@ def check(prop, tier, seed):
         f = violations[0]
         path = core.write_replay(prop, 'violation', dict(property=prop, failure=f, broken=broken, seed=seed,
                                                           replay_hint=f.get('replay')))
+        lines.append('  failing input [%s]: %s' % (f.get('signature'), str(f.get('what'))[:500].replace('\n', ' ')))
         lines.append('VIOLATION property=%s replay=%s' % (prop, path))
     elif broken:
         rc = 1
         path = core.write_replay(prop, 'broken', dict(property=prop, broken=broken, seed=seed,
                                                        note='no concrete failing input found; the listed theorem / correspondence no longer checks'))
+        for bk in broken[:6]:
+            lines.append('  no longer checks [%s]: %s' % (bk.get('kind'), str(bk.get('what'))[:700].replace('\n', ' ')))
         lines.append('VIOLATION property=%s replay=%s no-failing-input-found' % (prop, path))
     wall = time.time() - t0
     cov = dict(obligations=b['obligations'], discharged=b['obligations'] if b['ok'] else 0,
